@@ -1,4 +1,4 @@
-// Demonstrations of the C16 defects F9 (DEALER), F10 (REP), F11 (SUB) and of the recorded finding for REQ against the REAL
+// Demonstrations of the C16 defects F9 (DEALER), F10 (REP), F11 (SUB) and F12 (REQ) against the REAL
 // code, through the public API only.  Not part of any check.  Usage (scratch copy of /repo, never /repo itself):
 //   cp /verif/findings/defect_demo_c16.rs tests/ && cargo test --offline --test defect_demo_c16 -- --test-threads 1
 // A raw TCP peer completes the handshake, sends the first octets of a frame and closes the connection.  The property:
@@ -76,4 +76,37 @@ async fn pull_already_does() {
     raw_peer(&ep, "PUSH", CUT_MID_FRAME, true).await;
     let (errs, _) = count_errors(&mut s).await;
     assert!(errs <= 1, "PULL recv reported the same dead connection {errs} times");
+}
+
+// F12: REQ reads its peer directly; after a failed read the peer stayed in table and rotation and the NEXT send was
+// routed to the dead connection and reported Ok.
+#[tokio::test]
+async fn f12_req_forgets_a_peer_whose_read_failed() {
+    let l = tokio::net::TcpListener::bind("127.0.0.1:0").await.unwrap();
+    let addr = l.local_addr().unwrap();
+    let server = tokio::spawn(async move {
+        let (mut s, _) = l.accept().await.unwrap();
+        s.write_all(&greeting()).await.unwrap();
+        s.write_all(&ready("REP")).await.unwrap();
+        let mut buf = vec![0u8; 4096];
+        // read greeting + ready + request
+        let mut got = 0;
+        while got < 64 + 10 { got += tokio::io::AsyncReadExt::read(&mut s, &mut buf).await.unwrap(); }
+        tokio::time::sleep(Duration::from_millis(200)).await;
+        // first octets of a reply frame, then close
+        s.write_all(&[0x01, 0x05, b'a']).await.unwrap();
+        s.flush().await.unwrap();
+        drop(s);
+    });
+    let mut req = zeromq::ReqSocket::new();
+    req.connect(&format!("tcp://{}", addr)).await.unwrap();
+    req.send("hello".into()).await.unwrap();
+    let r = tokio::time::timeout(Duration::from_secs(2), req.recv()).await.unwrap();
+    assert!(r.is_err(), "the reply was cut short");
+    server.await.unwrap();
+    tokio::time::sleep(Duration::from_millis(200)).await;
+    // the socket has observed the end of its only peer: a later send must not be routed to it
+    let again = req.send("again".into()).await;
+    println!("second send: {:?}", again.as_ref().map_err(|e| e.to_string()));
+    assert!(again.is_err(), "send after the only peer failed was routed to the dead connection and reported Ok");
 }
